@@ -89,7 +89,13 @@ func decodeAll(cd codec, b []byte) (rs []vegeta.Result, term string) {
 // ---------------------------------------------------------------- independent reference readers (documented layout only)
 
 // refCSV reads a CSV stream by the documented twelve columns (README "encode command", encode.go usage).
+// The documentation says only "Base64 encoded response headers" about column 12; the reference reader
+// understands the usual wire form (Name: value lines, CRLF or LF, ended by an empty line). When the column
+// is valid base64 but not of that form, hdrUnknown marks the record and its headers are not compared.
+var hdrUnknown map[int]bool
+
 func refCSV(b []byte) ([]vegeta.Result, error) {
+	hdrUnknown = map[int]bool{}
 	rd := csv.NewReader(bytes.NewReader(b))
 	rd.FieldsPerRecord = -1
 	recs, err := rd.ReadAll()
@@ -140,15 +146,17 @@ func refCSV(b []byte) ([]vegeta.Result, error) {
 				return nil, err
 			}
 			x.Headers = http.Header{}
-			for _, ln := range strings.Split(string(raw), "\r\n") {
+			for _, ln := range strings.Split(string(raw), "\n") {
+				ln = strings.TrimSuffix(ln, "\r")
 				if ln == "" {
 					break
 				}
 				k, v, ok := strings.Cut(ln, ":")
-				if !ok {
-					return nil, fmt.Errorf("header line without colon: %q", ln)
+				if !ok || k == "" {
+					hdrUnknown[len(out)] = true
+					break
 				}
-				x.Headers[k] = append(x.Headers[k], strings.TrimLeft(v, " "))
+				x.Headers[k] = append(x.Headers[k], strings.TrimLeft(v, " \t"))
 			}
 		}
 		out = append(out, x)
@@ -242,8 +250,9 @@ func checkFields(s *kit.Summary) {
 		got = append(got, f.Name+" "+f.Type.String()+" "+f.Tag.Get("json"))
 	}
 	if strings.Join(got, "|") != strings.Join(gen.ResultFields, "|") {
-		s.Violate(kit.Violation{Kind: "result_fields_changed", What: "vegeta.Result has fields the codec model, generators and documentation check do not cover",
-			Input: got, Expected: strings.Join(gen.ResultFields, "|"), Observed: strings.Join(got, "|")})
+		// not a violation of the property by itself (the new field may well round-trip): the model, the
+		// generators and the documentation check do not cover it — a broken tie
+		s.Diverge("result-fields", "reflect.TypeOf(vegeta.Result{})", strings.Join(got, "|"), strings.Join(gen.ResultFields, "|"))
 	}
 	s.Extra["result_fields"] = got
 }
@@ -331,6 +340,14 @@ func oracle(s *kit.Summary, cd codec, rs []vegeta.Result) (enc []byte, ok bool) 
 	if err != nil {
 		s.Violate(kit.Violation{Kind: cd.name + "_layout", What: "an independent reader of the documented layout cannot read the encoder's output", Input: in, Observed: err.Error()})
 		return enc, false
+	}
+	if cd.name == "csv" {
+		for i := range ref {
+			if hdrUnknown[i] && i < len(rs) { // header block not in the wire form this reader knows: not compared
+				ref[i].Headers = rs[i].Headers
+				s.Skipped["csv reference reader: header block form not recognised"]++
+			}
+		}
 	}
 	if eq, at := equalAll(rs, ref); !eq {
 		obs := fmt.Sprintf("read %d of %d, first difference at %d", len(ref), len(rs), at)
@@ -969,7 +986,8 @@ func codecRun(c *run.Ctx, r *kit.Rng, s *kit.Summary, cn string, n int) {
 		}
 		// byte-level facts other theorems rely on
 		if cn == "json" && bytes.Count(enc, []byte("\n")) != len(rs) {
-			s.Violate(kit.Violation{Kind: "json_newlines", What: "a JSON record contains a raw newline", Input: mkInput(cn, rs)})
+			// a fact the model and C09's line contract rely on; C07's text does not speak about it
+			s.Diverge("json-codec", "one newline per JSON record", fmt.Sprintf("%d newlines for %d records", bytes.Count(enc, []byte("\n")), len(rs)), fmt.Sprint(len(rs)))
 		}
 		// model decoder and Lean spec reader on the real encoder's bytes
 		real, term := decodeAll(cd, enc)
@@ -1237,8 +1255,9 @@ func equalRun(c *run.Ctx, r *kit.Rng, s *kit.Summary, n int) {
 			a.Body, b.Body = nil, []byte{}
 			what = "body nil vs empty"
 		case 13:
+			// (the text does not say whether a nil and an empty header map are different: only the model is asked)
 			a.Headers, b.Headers = nil, http.Header{}
-			what, want = "headers nil vs empty", false
+			what, want = "headers nil vs empty", a.Equal(b)
 		case 14, 15, 16, 17, 18:
 			if len(b.Headers) == 0 {
 				break
